@@ -19,7 +19,14 @@
                               nested calls supply the parameters without default, a hand-wired chain
                               visits every child once in an order compatible with the data)
      rets_distinct d          no channel is returned twice, at any depth
-     macro_level o            o is `m.inputs[k] = x` or `m.run()` (path = []) *)
+     macro_level o            o is `m.inputs[k] = x` or `m.run()` (path = [])
+     free_op s o              o is NOT applied on the receiving side of a value link: not an assignment to a
+                              child input that is the value_receiver of a macro input, nor to a macro output
+                              a child output is linked into (free_in / free_out, any depth)
+     synced s v               every value-linked pair of channels, at every depth, holds equal values
+     down_chain / up_chain    the channels a macro input forwards to / a child output is forwarded to,
+                              through any nesting
+   The witness definitions dup_def, one_def, inner_def, outer_def are at the end of MacroProofs.v. *)
 From PW Require Import Base Macro MacroProofs.
 Open Scope string_scope.
 Open Scope list_scope.
@@ -61,8 +68,6 @@ Print Assumptions C09_equals_inlined_body_partial.
 
 (* REFUTED (C09-duplicate-return-replaces-link): `return self.c, self.c` under two labels: the second
    value link replaces the first, the first output stays NOT_DATA although python returns the value twice *)
-Definition dup_def : mdef :=
-  MDef [mkParam "x" (Some 1%Z) None] [mkStmt "c" None [AParam 0]] [("a", AOut 0 0); ("b", AOut 0 0)] FAuto.
 
 Theorem C09_equals_inlined_refuted_duplicate_return :
   wfd dup_def = true /\ rets_distinct dup_def = false /\
@@ -83,17 +88,14 @@ Print Assumptions C09_equals_inlined_refuted_duplicate_return.
 Theorem C09_interface : forall d l s v, build d l = Some (s, v) ->
   iface_ok d s /\ s_label_of s = l /\ v_ins v = map p_default (d_params d) /\
   (forall o, nth o (v_outs v) None = None).
-Proof.
-  intros d l s v H. destruct (build_ok d l s v H) as (Hw & _ & Hl & Hi & Ho & _).
-  split; [now apply wired_iface|auto].
-Qed.
+Proof. exact interface_thm. Qed.
 Print Assumptions C09_interface.
 
 (* ---- closure ---------------------------------------------------------------------------------------- *)
 (* every data connection of every child, at every depth, names a sibling that is still there: an
    interface node that was kept, or an earlier child and one of its outputs *)
 Theorem C09_closed : forall d l s v, wfd d = true -> build d l = Some (s, v) -> closed s.
-Proof. intros d l s v Hwf H. destruct (build_ok d l s v H) as (Hw & _). now apply (wired_closed d). Qed.
+Proof. exact closed_thm. Qed.
 Print Assumptions C09_closed.
 
 (* ---- by value: macro channels are not the children's channels -------------------------------- *)
@@ -104,10 +106,7 @@ Theorem C09_distinct_io : forall s v r p k x,
   (vget (fst (set_out_at s v [] k x)) (r :: p) = vget v (r :: p) /\ v_ins (fst (set_out_at s v [] k x)) = v_ins v) /\
   (* writing a child-level output leaves the macro's inputs alone *)
   v_ins (fst (set_out_at s v (r :: p) k x)) = v_ins v.
-Proof.
-  intros. split; [apply child_input_write_leaves_macro_io|].
-  split; [apply macro_output_write_leaves_children|apply child_output_write_leaves_macro_inputs].
-Qed.
+Proof. exact distinct_io_thm. Qed.
 Print Assumptions C09_distinct_io.
 
 (* ---- synchronisation, the directions the code implements ------------------------------------- *)
@@ -119,13 +118,7 @@ Theorem C09_sync_down_partial : forall d l s v0 ops v k x,
   build d l = Some (s, v0) -> apply_ops s v0 ops = Some v -> k < List.length (d_params d) ->
   get_in (set_in s v k x) [] k = x /\
   forall pk, In pk (down_chain s k) -> get_in (set_in s v k x) (fst pk) (snd pk) = x.
-Proof.
-  intros d l s v0 ops v k x Hb Hops Hk. destruct (build_ok d l s v0 Hb) as (Hw & Hc & _).
-  apply sync_down.
-  - now apply (wired_sranges d).
-  - apply (apply_ops_vshape s ops v0 v); auto. now apply (coh_vshape d).
-  - now rewrite (wired_nins d s Hw).
-Qed.
+Proof. exact sync_down_thm. Qed.
 Print Assumptions C09_sync_down_partial.
 
 (* UP, after ANY history: an update of any child output through the setter (at any depth) reaches every
@@ -133,27 +126,29 @@ Print Assumptions C09_sync_down_partial.
 Theorem C09_sync_up_partial : forall d l s v0 ops v p lo x,
   build d l = Some (s, v0) -> apply_ops s v0 ops = Some v ->
   forall qo, In qo (fst (up_chain s p lo)) -> get_out (fst (set_out_at s v p lo x)) (fst qo) (snd qo) = x.
-Proof.
-  intros d l s v0 ops v p lo x Hb Hops. destruct (build_ok d l s v0 Hb) as (Hw & Hc & _).
-  apply sync_up.
-  - now apply (wired_sranges d).
-  - apply (apply_ops_vshape s ops v0 v); auto. now apply (coh_vshape d).
-Qed.
+Proof. exact sync_up_thm. Qed.
 Print Assumptions C09_sync_up_partial.
 
-(* PARTIAL ("always hold the same values"): after every history of macro-level input assignments and
-   runs, EVERY value-linked pair of channels, at every depth, holds equal values (inputs with the child
-   inputs they forward to, outputs with the child outputs they receive from).  Missing: histories with
-   an update applied on the receiving side of a value link (refuted below, S14). *)
+(* PARTIAL ("always hold the same values ... whichever side is updated"): after EVERY history of
+   operations none of which is applied on the receiving side of a value link -- macro-level input
+   assignments, runs, child-level assignments to inputs that are not the target of a link, assignments to
+   outputs nothing is linked into (e.g. the outputs of function children), at any depth -- EVERY
+   value-linked pair of channels, at every depth, holds equal values.  [free_op s o] is exactly the
+   negation of the cause predicate of the two S14 findings.  Missing: updates on the receiving side
+   (refuted below). *)
 Theorem C09_sync_always_partial : forall d l s v0 ops v,
-  wfd d = true -> rets_distinct d = true -> build d l = Some (s, v0) ->
-  Forall macro_level ops -> apply_ops s v0 ops = Some v -> synced s v.
-Proof. exact sync_partial. Qed.
+  build d l = Some (s, v0) -> Forall (free_op s) ops -> apply_ops s v0 ops = Some v -> synced s v.
+Proof. exact sync_always. Qed.
 Print Assumptions C09_sync_always_partial.
 
+(* ... and the linked pairs are all the pairs the definition prescribes: with no channel returned twice,
+   every output of every macro instance (any depth) is linked from the channel returned there *)
+Theorem C09_links_complete_partial : forall d l s v,
+  wfd d = true -> rets_distinct d = true -> build d l = Some (s, v) -> out_links_complete d s.
+Proof. exact links_complete_thm. Qed.
+Print Assumptions C09_links_complete_partial.
+
 (* REFUTED (S14, child input): `m.c.inputs.a = 7` is not mirrored to the macro input it is linked from *)
-Definition one_def : mdef :=
-  MDef [mkParam "x" (Some 1%Z) None] [mkStmt "c" None [AParam 0]] [("o", AOut 0 0)] FAuto.
 
 Theorem C09_sync_refuted_child_input :
   wfd one_def = true /\ rets_distinct one_def = true /\
@@ -202,16 +197,6 @@ Print Assumptions C09_rerun_after_child_update_refuted.
 
 (* ---- non-vacuity: a nested definition with a forked, a single-use, a passed-through and an unused
    parameter, a nested macro fed by a parameter and by a sibling, a hand-wired chain ------------- *)
-Definition inner_def : mdef :=
-  MDef [mkParam "q0" None (Some HInt); mkParam "q1" (Some 2%Z) None]
-       [mkStmt "c0" None [AParam 0; AParam 1]; mkStmt "c1" None [AOut 0 0; AParam 0]]
-       [("r", AOut 1 0); ("q", AOut 0 0)] (FChain [0; 1]).
-Definition outer_def : mdef :=
-  MDef [mkParam "p0" None None; mkParam "p1" (Some 5%Z) (Some HInt); mkParam "p2" (Some 7%Z) None;
-        mkParam "p3" (Some 9%Z) None]
-       [mkStmt "c0" None [AParam 0]; mkStmt "c1" None [AParam 1; AParam 1];
-        mkStmt "c2" (Some inner_def) [AParam 1; AOut 0 0]; mkStmt "c3" None [AOut 2 1; AConst 4%Z]]
-       [("o0", AOut 3 0); ("o1", AParam 2); ("o2", AOut 2 0)] FAuto.
 
 Example C09_hyps_hold :
   wfd outer_def = true /\ rets_distinct outer_def = true /\
@@ -233,8 +218,4 @@ Proof. vm_compute. repeat split; reflexivity. Qed.
 (* the hypotheses of the closure / interface theorems are met by the same instance *)
 Example C09_hyps_hold_static : forall s v0, build outer_def "m" = Some (s, v0) ->
   closed s /\ iface_ok outer_def s /\ synced s v0.
-Proof.
-  intros s v0 H. split; [apply (C09_closed outer_def "m" s v0); auto|].
-  split; [apply (C09_interface outer_def "m" s v0 H)|].
-  apply (C09_sync_always_partial outer_def "m" s v0 [] v0); auto.
-Qed.
+Proof. exact hyps_hold_static. Qed.
